@@ -847,6 +847,12 @@ func TestC13Hostile(t *testing.T) {
 				stream = append(stream, hostilePacket(rt, hs)...)
 			}
 		}
+		// the stream may end anywhere inside its last packet (e.g. in the
+		// payload of a message beyond the read buffer which the application
+		// does not read): then silence
+		if connack == nil && len(stream) > 2 && rapid.IntRange(0, 5).Draw(rt, "cutTail") == 0 {
+			stream = stream[:len(stream)-rapid.IntRange(1, min(len(stream)-1, 200)).Draw(rt, "cutBytes")]
+		}
 		label, nontrivial := runHostile(rt, connack, stream, hs)
 		stats.For("C13").Case(fmt.Sprintf("setup %+v connack % x stream % x", hs, connack, stream), nontrivial, label)
 	})
